@@ -45,6 +45,13 @@ ProbeOf(p) ==
   IF cnt.secs = 0 \/ p = "none" THEN <<>>
   ELSE IF p = "cload" THEN << [a |-> "cload", arg |-> [text |-> DocText],
                                exp |-> [ret |-> "ok", items |-> CItems(Fold(stack), Len(Fold(stack)))]] >>
+  ELSE IF p = "inst" THEN
+       (IF den.ret # "ok" THEN <<>>
+        ELSE LET k == IF cnt.secs % 2 = 0 THEN "axis" ELSE "world" IN
+             << [a |-> "inst", arg |-> [kind |-> k, name |-> InstName],
+                 exp |-> [ret |-> "ok", lay |-> den.lay, graphs |-> den.graphs,
+                          items |-> Append(den.items, [name |-> L!RLE(InstName), kind |-> k, p |-> AllView1(k, Def1T[k]),
+                                                       items |-> <<>>, axes |-> <<>>, worlds |-> <<>>])]] >>)
   ELSE IF p = "props" /\ \E i \in 2..Len(heap) : heap[i].kind = "text" /\ ~UnitXY(heap[i].r) THEN <<>>
   ELSE << [a |-> IF p = "dump" THEN "dump" ELSE "copy", arg |-> IF p = "dump" THEN [x |-> 0] ELSE [mode |-> p],
            exp |-> IF den.ret = "ok" THEN [ret |-> "ok", lay |-> den.lay, items |-> den.items, graphs |-> den.graphs]
